@@ -45,7 +45,11 @@ let strm side f =
   | `Spec -> "N/A"
   | `Model ->
       let mode = List.nth f 0 and wkind = List.nth f 1 in
-      let script = if wkind = "boxed" then parse_script (List.nth f 2) else [] in
+      (* boxed / send / sync: scripted writer behind Box<dyn Write [+ Send [+ Sync]]>; vec / file write every
+         buffer of a vectored write; buffer (anstream::Buffer) has std's default write_vectored *)
+      let scripted = wkind = "boxed" || wkind = "send" || wkind = "sync" in
+      let wv_all = wkind = "vec" || wkind = "file" in
+      let script = if scripted then parse_script (List.nth f 2) else [] in
       let ops = if List.nth f 3 = "-" then [] else List.map parse_op (String.split_on_char ',' (List.nth f 3)) in
       let m, cur =
         match mode with
@@ -62,9 +66,9 @@ let strm side f =
         if cur = "-" then "-"
         else match current_choice m with CNever -> "never" | CAlwaysAnsi -> "ansi" | CAlways -> "always" | CAuto -> "auto"
       in
-      let (_, w), rs = unopt (run_ops (wkind <> "boxed") m sb_new (writer_of script) ops) in
+      let (_, w), rs = unopt (run_ops wv_all m sb_new (writer_of script) ops) in
       let history =
-        if wkind = "boxed" then (if w.w_calls = [] then "-" else String.concat ";" (List.map show_call w.w_calls)) else "-"
+        if scripted then (if w.w_calls = [] then "-" else String.concat ";" (List.map show_call w.w_calls)) else "-"
       in
       Printf.sprintf "%s | %s | %s | %s"
         (if rs = [] then "-" else String.concat "," (List.map show_res rs))
@@ -109,7 +113,35 @@ let tas side f =
       let (_, w), _ = unopt (run_ops true (if strip then MStrip else MPass) sb_new (writer_of []) [ OWriteFmt frags ]) in
       hexo w.w_received
 
+(* the print macros on the real stdout / stderr (pipes, so no terminal): every call makes a fresh
+   AutoStream::auto stream -- the decision is C09's, the state does not carry from call to call *)
+let pm side f =
+  match f with
+  | _which :: nl :: calls :: rest ->
+      let binding b =
+        match String.index_opt b '=' with
+        | None -> failwith ("binding " ^ b)
+        | Some i ->
+            let un h = if h = "-" then [] else nlist (unhex h) in
+            (un (String.sub b 0 i), un (String.sub b (i + 1) (String.length b - i - 1)))
+      in
+      let e = env_of_list (List.map binding rest) in
+      let c = match side with `Model -> choice_model ChAuto e false | `Spec -> choice_spec ChAuto e false in
+      let strip = (c = ChNever) in
+      let tail = if nl = "1" then [ [ n_of_int 10 ] ] else [] in
+      let one call =
+        let frags = (if call = "-" then [] else List.map (fun h -> nlist (unhex h)) (String.split_on_char '/' call)) @ tail in
+        match side with
+        | `Spec -> if strip then spec_strip (List.concat frags) else List.concat frags
+        | `Model ->
+            let (_, w), _ = unopt (run_ops true (if strip then MStrip else MPass) sb_new (writer_of []) [ OWriteFmt frags ]) in
+            w.w_received
+      in
+      hexo (List.concat_map one (String.split_on_char ',' calls))
+  | _ -> failwith "pm"
+
 let () =
+  register "pm" pm;
   register "tas" tas;
   register "lk8" lk8;
   register "drvv" drvv;
